@@ -9,6 +9,12 @@ pub mod c03;
 pub mod c04;
 pub mod c07;
 pub mod c08;
+pub mod c09;
+pub mod c14;
+pub mod c16;
+pub mod c17;
+pub mod c18;
+pub mod c19;
 pub mod c15;
 
 /// Names of the fields in which two difficulty attribute values differ (bitwise for floats).
@@ -113,6 +119,12 @@ pub fn lookup(prop: &str) -> Option<CaseFn> {
         "C04" => c04::case,
         "C07" => c07::case,
         "C08" => c08::case,
+        "C09" => c09::case,
+        "C14" => c14::case,
+        "C16" => c16::case,
+        "C17" => c17::case,
+        "C18" => c18::case,
+        "C19" => c19::case,
         "C15" => c15::case,
         _ => return None,
     })
